@@ -317,6 +317,30 @@ type knownFunc func(string) bool
 
 func (f knownFunc) Known(id string) bool { return f(id) }
 
+// hasSingleDisjunction: `auth(a |)` (one entitlement and a trailing separator) is parsed as a disjunction of one element and
+// printed as `auth(a)`, which re-parses as a conjunction (predicate of FS36).
+func hasSingleDisjunction(v any) bool {
+	found := false
+	var walk func(v any)
+	walk = func(v any) {
+		switch x := v.(type) {
+		case map[string]any:
+			if l, ok := x["DisjunctiveElements"].([]any); ok && len(l) == 1 {
+				found = true
+			}
+			for _, val := range x {
+				walk(val)
+			}
+		case []any:
+			for _, e := range x {
+				walk(e)
+			}
+		}
+	}
+	walk(v)
+	return found
+}
+
 // knownC38 returns the id of the known finding whose predicate the program matches ("" if none).
 func knownC38(rec *evid.Rec, j1 any, msg, printed string) string {
 	return knownPrinterDefect(rec.Known, j1, msg, printed)
@@ -346,6 +370,8 @@ func knownPrinterDefect(isKnown func(string) bool, j1 any, msg, printed string) 
 		return "FS12"
 	case rec.Known("FS14") && hasIntegerMemberAccess(j1):
 		return "FS14"
+	case rec.Known("FS36") && strings.Contains(canon(j1), `"DisjunctiveElements":[{"Identifier":{"Identifier":"`) && hasSingleDisjunction(j1):
+		return "FS36"
 	case rec.Known("FS22") && hasNonNominalInstantiation(j1):
 		return "FS22"
 	case rec.Known("FS21") && hasMoveOperand(j1):
@@ -510,7 +536,7 @@ func TestC38(t *testing.T) {
 		knownFS13 = true
 		rec.ReportKnown("FS13", m != "")
 	}
-	for id, repro := range map[string]string{"FS10": "let x = (attach A() to a) / x", "FS11": "let x = (destroy r) + 1", "FS12": "let x: fun(Int) = y", "FS14": "let a = 2 .a", "FS15": "let a: &(&T) = a", "FS16": "entitlement mapping N {}", "FS17": "fun a() { x = (); () }", "FS18": "let x = (-5)[0]", "FS20": "fun f() { pre { a; -b } }", "FS21": "let a = (<-x) as T", "FS22": "let a: (fun(): R)<T> = x", "FS23": "let x = a < fun () {}"} {
+	for id, repro := range map[string]string{"FS10": "let x = (attach A() to a) / x", "FS11": "let x = (destroy r) + 1", "FS12": "let x: fun(Int) = y", "FS14": "let a = 2 .a", "FS15": "let a: &(&T) = a", "FS16": "entitlement mapping N {}", "FS17": "fun a() { x = (); () }", "FS18": "let x = (-5)[0]", "FS20": "fun f() { pre { a; -b } }", "FS21": "let a = (<-x) as T", "FS22": "let a: (fun(): R)<T> = x", "FS23": "let x = a<fun(){ }", "FS36": "let a: auth(E |) &T = x"} {
 		if rec.Known(id) {
 			m, _ := roundTrip([]byte(repro), false)
 			rec.ReportKnown(id, m != "")
